@@ -220,7 +220,7 @@ func ruleOneIdPerCall(c *Ctx, rule string) {
 	c.check(rule, "NewStreamReadWriter:register-id", p.sameValue(greg.Common().Args[1], gid), "value registered is the atomic-add result", p.ipos(greg))
 	okRet := false
 	for _, r := range returnsOf(g) {
-		if len(r.Results) == 4 && p.sameValue(r.Results[0], gid) {
+		if len(r.Results) == 4 && p.sameValue(retVals(r)[0], gid) {
 			okRet = true
 		}
 	}
@@ -260,7 +260,7 @@ func ruleRegisterBeforeWrite(c *Ctx, rule string) {
 	greg := p.oneCall(g, "client.RpcMultiplexer.registerHandler", false)
 	okAll := true
 	for _, r := range returnsOf(g) {
-		if len(r.Results) == 4 && isNilConst(r.Results[3]) && !instrDominates(greg, r) {
+		if len(r.Results) == 4 && isNilConst(retVals(r)[3]) && !instrDominates(greg, r) {
 			okAll = false
 		}
 	}
@@ -600,7 +600,7 @@ func rulePayloadProvenance(c *Ctx, rule string) {
 		if len(r.Results) != 2 {
 			continue
 		}
-		for _, t := range e.Of(r.Results[0]) {
+		for _, t := range e.Of(retVals(r)[0]) {
 			if t.Op == "const" {
 				continue
 			}
